@@ -6133,8 +6133,10 @@ let grouped u cfg m0 =
 
 (** val layout_w : uData -> str -> nat **)
 
-let layout_w =
-  layout_width
+let layout_w u s =
+  Nat.min (layout_width u s)
+    (N.to_nat (Npos (XI (XI (XI (XI (XI (XI (XI (XI (XI (XI (XI (XI (XI (XI
+      (XI XH)))))))))))))))))
 
 (** val edit_move_line_up : uData -> config -> nat -> bool e **)
 
@@ -6418,11 +6420,10 @@ let cmd_redo c new0 =
               let k = match li with
                       | Some t' -> blen t'
                       | None -> O in
-              if Nat.ltb
-                   (N.to_nat (Npos (XI (XI (XI (XI (XI (XI (XI (XI (XI (XI
-                     (XI (XI (XI (XI (XI XH))))))))))))))))) k
-              then epanic
-              else eret (CReplace ((MForwardChar k), li))
+              eret (CReplace ((MForwardChar
+                (Nat.min k
+                  (N.to_nat (Npos (XI (XI (XI (XI (XI (XI (XI (XI (XI (XI (XI
+                    (XI (XI (XI (XI XH))))))))))))))))))), li))
             | S _ -> eret (CReplace ((mvt_redo m0 new0), li)))
          | _ -> eret (CReplace ((mvt_redo m0 new0), li))))
   | CSelfInsert (p, ch) ->
